@@ -16,11 +16,13 @@ Open Scope N_scope.
 Inductive sk :=
 | SKS (shares : list (N * N))            (* (group, len(data)) *)
 | SCookie (c : bytes)
+| SCookieRef                             (* a cookie extension holding exactly the HelloRetryRequest's cookie (compared in Go) *)
 | SPad (boring : bool) (l : N) (w : bool) (* GetPaddingLen is BoringPaddingStyle / nil; PaddingLen; WillPad *)
 | SOther (psk : bool) (id n : N).         (* extension_type and Len() (0 = not on the wire) *)
 
-Definition hext_of_sk (x : sk) : hext :=
+Definition hext_of_sk (ref : bytes) (x : sk) : hext :=
   match x with
+  | SCookieRef => HCookie ref
   | SKS shares => HKeyShare (map (fun gn => (fst gn, zeros (snd gn))) shares)
   | SCookie c => HCookie c
   | SPad b l w => HPad (if b then PolBoring else PolNone) {| p_len := l; p_will := w |}
@@ -76,10 +78,10 @@ Inductive case :=
 Definition check (c : case) : bool :=
   match c with
   | CStep sidlen nsuites ncomp npsk g sharelen cookie idx before after =>
-      let es := map hext_of_sk before in
+      let es := map (hext_of_sk cookie) before in
       let shares := if g =? 0 then first_shares es else [(g, zeros sharelen)] in
       match hrr_second_hello bbs0 8 (stream_for idx) (dummy_hdr sidlen nsuites ncomp) npsk shares cookie es with
-      | Ok (es', _) => list_eqb hext_eqb es' (map hext_of_sk after)
+      | Ok (es', _) => list_eqb hext_eqb es' (map (hext_of_sk cookie) after)
       | _ => false
       end
   | CWire raw1 raw2 npsk g share cookie idx before =>
@@ -99,3 +101,6 @@ Definition check (c : case) : bool :=
       | inr _ => false
       end
   end.
+
+(* the generated case files name the codec model's constructors (EKeyShare, EGREASE, PadBoring ...) unqualified *)
+Export Ext.
